@@ -166,7 +166,7 @@ def rsimplex(rng, k):
 TREE_KINDS = ("unrooted", "unrooted_exp", "time", "ratio", "ratio_tp", "shift")
 
 
-def gen_tree(rng, n, kind, hetero=True):
+def gen_tree(rng, n, kind, hetero=True, dates=None):
     """concrete tree spec with its leaf parameters' base point and bounds"""
     _imports()
     t = {"n": n, "kind": kind, "newick": random_newick(rng, n)}
@@ -179,7 +179,7 @@ def gen_tree(rng, n, kind, hetero=True):
         else:
             x["logbl"], b["logbl"] = [math.log(v) for v in bl], [None, None]
         return t, x, b
-    t["dates"] = random_dates(rng, n, hetero)
+    t["dates"] = list(dates) if dates is not None else random_dates(rng, n, hetero)
     ratios = [rng.uniform(0.15, 0.85) for _ in range(n - 2)]
     root = max(t["dates"]) + rng.uniform(1.0, 3.0)
     if kind == "ratio":
@@ -251,7 +251,7 @@ SITE_KINDS = ("const", "const_mu", "weibull", "weibull_inv", "weibull_mu", "inv"
 
 
 def gen_like(rng, subst, site, treekind, rescale, tip_states=False, ambig=True, n=None, sites=None, clock="strict",
-             pinv_zero=False):
+             pinv_zero=False, equal_rates=False):
     n = n or rng.randint(4, 6)
     sites = sites or rng.randint(6, 10)
     t, x, b = gen_tree(rng, n, treekind)
@@ -297,6 +297,17 @@ def gen_like(rng, subst, site, treekind, rescale, tip_states=False, ambig=True, 
         x["pinv"], b["pinv"] = [rng.uniform(0.1, 0.6)], [0.0, 1.0]
     spec["x"], spec["bounds"] = x, b
     spec["name"] = "like/%s/%s/%s/rescale=%d%s" % (subst, site, treekind, rescale, "/tipstates" if tip_states else "")
+    if equal_rates:
+        if "kappa" in x and subst.startswith("HKY"):
+            x["kappa"] = [1.0]
+            hold_fixed(spec, "kappa")
+        if "rates6" in x:
+            x["rates6"] = [1.0] * 6
+            hold_fixed(spec, "rates6")
+        for nm in ("freqs", "zfreqs"):
+            if nm in x:
+                hold_fixed(spec, nm)  # their gradient goes through eigh at a repeated eigenvalue (trusted base)
+        spec["name"] += "/equal-rates"
     if pinv_zero and "pinv" in x:
         x["pinv"] = [0.0]
         hold_fixed(spec, "pinv")
@@ -435,7 +446,7 @@ def gen_coal(rng, kind, treekind, theta_tp=False, n=None, special=None):
     else:
         g = rng.randint(2, 4)
         k = g + 1
-        cut = root * (1.6 if special == "beyond_root" else rng.choice([0.7, 0.95, 1.4]))
+        cut = root * (1.6 if special and "beyond_root" in special else rng.choice([0.7, 0.95, 1.4]))
         spec["grid"] = [cut * (i + 1) / g for i in range(g)]
         if kind == "pwexp":
             x["growth"], b["growth"] = [rng.choice([-1, 1]) * rpos(rng, 0.1, 1.0) for _ in range(k)], [None, None]
@@ -449,7 +460,12 @@ def gen_coal(rng, kind, treekind, theta_tp=False, n=None, special=None):
             x["theta"], b["theta"] = th, [0.0, None]
     spec["x"], spec["bounds"] = x, b
     spec["name"] = "coal/%s/%s%s" % (kind, treekind, "/theta=exp(.)" if theta_tp else "")
-    if special == "equal_theta" and k > 1:
+    if special == "equal_theta+beyond_root" and k > 1:
+        nm = "logtheta" if theta_tp else "theta"
+        x[nm] = [x[nm][0]] * len(x[nm])
+        hold_fixed(spec, nm)
+        spec["name"] += "/equal-thetas/grid-beyond-root"
+    elif special == "equal_theta" and k > 1:
         nm = "logtheta" if theta_tp else "theta"
         x[nm] = [x[nm][0]] * len(x[nm])
         hold_fixed(spec, nm)
@@ -567,6 +583,73 @@ def gen_bdsk(rng, treekind, m=None, rho=False, survival=True, root_edge=False, e
     return spec
 
 
+def bdsk_special_candidates(m, with_r=False):
+    """(parameter, epoch, value): every per-epoch parameter that may legitimately sit at a boundary value"""
+    c = []
+    for e in range(m):
+        c.append(("s", e, 0.0))  # s = 1 means mu = 0, which the distribution itself rejects
+        c.append(("rho", e, 0.0))
+        if e == m - 1:
+            c.append(("rho", e, 1.0))  # rho = 1 before the present makes log(1 - rho) = -inf: not defined
+        if with_r:
+            c.append(("r", e, 0.0))
+            if e == m - 1:
+                c.append(("r", e, 1.0))
+    return c
+
+
+def gen_bdsk_epochs(rng, m, special, treekind="time", with_r=False, survival=True):
+    """BDSK in the epidemiological parameterisation with `m` epochs given by explicit (fixed) change times and a
+    fixed origin, per-epoch rho, tips of every class: rho-sampled at the present and at interior sampling events
+    (ON the epoch boundaries), psi-sampled inside the epochs.  `special` = [(param, epoch, value)]: those
+    coordinates are held at the special value; every other coordinate is differentiated.
+    Forward time: epoch e = [t_e, t_{e+1}), t_0 = 0 at the origin, t_m = origin = the present (height 0).
+    As the code has it, a tip at t_k (1 <= k < m) and a tip at the present are looked up in epoch min(k, m-1)."""
+    origin = 8.0 * m
+    times = [8.0 * k for k in range(m)]
+    sp = {(p, e): v for p, e, v in special}
+    sv = [sp.get(("s", e), rng.uniform(0.15, 0.7)) for e in range(m)]
+    rv = [sp.get(("rho", e), rng.uniform(0.1, 0.6)) for e in range(m)]
+    # tips: psi-tips only where psi > 0, boundary tips only where the rho that is looked up is > 0
+    dates = []
+    if rv[m - 1] > 0 or sv[m - 1] > 0:
+        dates += [0.0] * rng.randint(1, 2)
+    for k in range(1, m):
+        if rv[k] > 0:
+            dates += [origin - times[k]] * rng.randint(1, 2)
+    for e in range(m):
+        if sv[e] > 0:
+            lo = origin - (times[e + 1] if e + 1 < m else origin)  # height of the younger end of epoch e
+            for _ in range(rng.randint(1, 2)):
+                dates.append(lo + rng.choice([0.5, 1.0, 1.5, 2.5, 3.0, 4.5]))
+    if 0.0 not in dates:
+        dates.append(0.0)  # heights are dates only when the youngest date is 0 (psi- or rho-tip as above allows)
+    while len(dates) < 3:
+        dates.append(dates[-1])
+    rng.shuffle(dates)
+    n = len(dates)
+    t, x, b = gen_tree(rng, n, treekind, dates=dates)
+    spec = {"family": "bdsk", "tree": t, "m": m, "survival": survival, "root_edge": False, "rho": True,
+            "explicit_times": True, "times": times, "fixed_origin": True}
+    x["R"], b["R"] = [rpos(rng, 0.8, 2.0) for _ in range(m)], [0.0, None]
+    x["delta"], b["delta"] = [rpos(rng, 0.3, 1.0) for _ in range(m)], [0.0, None]
+    x["s"], b["s"] = sv, [0.0, 1.0]
+    x["rho"], b["rho"] = rv, [0.0, 1.0]
+    x["origin"], b["origin"] = [origin], [0.0, None]
+    if with_r:
+        x["r"], b["r"] = [sp.get(("r", e), rng.uniform(0.15, 0.85)) for e in range(m)], [0.0, 1.0]
+    spec["x"], spec["bounds"] = x, b
+    spec["coords"] = {"origin": []}
+    spec["fixed"] = ["origin"]
+    for nm in ("s", "rho", "r"):
+        if nm in x:
+            spec["coords"][nm] = [e for e in range(m) if (nm, e) not in sp]
+    spec["special"] = [list(z) for z in special]
+    spec["name"] = "bdsk_epochs/%s/m=%d%s/%s" % (treekind, m, "/r" if with_r else "",
+                                                 "+".join("%s[%d]=%g" % z for z in special) or "interior")
+    return spec
+
+
 def make_bdsk(spec):
     _imports()
     from torchtree.core.utils import process_object
@@ -597,9 +680,15 @@ def make_bdsk(spec):
                 cuts = [o - tt for tt in spec["times"][1:]]
             else:
                 cuts = [o * (1.0 - k / m) for k in range(1, m)]
-            return torch.cat((nh, torch.tensor([float(c) for c in cuts] + [float(o)], dtype=torch.float64)))
+            extra = torch.tensor([float(c) for c in cuts] + [float(o)], dtype=torch.float64)
+            if spec.get("fixed_origin"):
+                # tips, epoch boundaries and the origin are data here (tips may sit ON a boundary): they
+                # form the constant leading block; only the internal heights move
+                return torch.cat((nh[: t["n"]], extra, nh[t["n"]:]))
+            return torch.cat((nh, extra))
 
-        return Built(mdl, {k: dic[k] for k in spec["x"]}, ev, t["n"])
+        nfix = t["n"] + (m if spec.get("fixed_origin") else 0)
+        return Built(mdl, {k: dic[k] for k in spec["x"]}, ev, nfix)
 
     return Scen(spec, make)
 
@@ -1190,6 +1279,34 @@ def catalogue(rng, tier):
         sp.append(lambda k=kind: gen_coal(rng, k, rng.choice(["fake", "time", "ratio"]), rng.random() < 0.5,
                                           special="beyond_root"))
     sp.append(lambda: gen_coal(rng, "exponential", rng.choice(["time", "ratio"]), False, special="growth0"))
+    # BDSK, multi-epoch, tips of every class; every per-epoch boundary value one at a time and in pairs
+    ep = []
+    for m in (2, 3):
+        for with_r in (False, True):
+            cand = bdsk_special_candidates(m, with_r)
+            singles = [[z] for z in cand]
+            pairs = [[a_, b_] for ia, a_ in enumerate(cand) for b_ in cand[ia + 1:] if (a_[0], a_[1]) != (b_[0], b_[1])]
+            if thorough:
+                chosen = [[]] + singles + pairs
+            else:
+                rng.shuffle(pairs)
+                if m == 2 and not with_r:
+                    chosen = [[]] + singles + pairs[:6]
+                else:
+                    rng.shuffle(singles)
+                    chosen = singles[:4] + pairs[:3]
+            for z in chosen:
+                ep.append(lambda m=m, w=with_r, z=z: gen_bdsk_epochs(rng, m, z, rng.choice(["time", "ratio"]), w,
+                                                                      rng.random() < 0.8))
+    c.extend(ep)
+    # equal exchangeabilities / kappa = 1 (repeated eigenvalues): rates and frequencies held, the rest differentiated
+    for subst in ("HKY", "GTR"):
+        for pz in ((False, True) if thorough else (rng.random() < 0.5,)):
+            sp.append(lambda su=subst, pz=pz: gen_like(rng, su, "weibull_inv" if pz else "weibull",
+                                                      rng.choice(["unrooted", "ratio"]), rng.randrange(2),
+                                                      pinv_zero=pz, equal_rates=True))
+    sp.append(lambda: gen_coal(rng, rng.choice(["skygrid", "pwlinear"]), rng.choice(["time", "ratio"]), False,
+                               special="equal_theta+beyond_root"))
     # several independent points per special configuration: whether a masked factor is EXACTLY zero in
     # floating point (0 * inf in backward) depends on the rounding at the point
     c.extend(sp * (4 if thorough else 2))
